@@ -3,6 +3,7 @@ mod method;
 mod request_uri;
 mod status;
 
+pub(crate) use headers::parse_content_length;
 pub use headers::Headers;
 pub use method::Method;
 pub use request_uri::RequestUri;
